@@ -80,11 +80,11 @@ def gen_inputs(ctx):
     def add(kind, files, root):
         wss.append(L.mk_ws(files, root, ctx.rng, hover=True, completion=True, hints="sample"))
         kinds.append(kind)
-    n_base = 70 if ctx.quick else 400
+    n_base = 120 if ctx.quick else 400
     for kind, files, root in L.derived_workspaces(g, ctx.rng, n_base, 4, 6, 1):
         add(kind, files, root)
     # every token prefix of a few programs
-    for _ in range(6 if ctx.quick else 40):
+    for _ in range(10 if ctx.quick else 40):
         t = g.program(ctx.rng.randrange(2, 5))
         for p in symgen.prefixes(t, ctx.rng, 10 ** 6):
             add("every-prefix", [["/w/main.td", p]], "/w/main.td")
@@ -177,6 +177,12 @@ def run(ctx):
                        "hint_ranges": std_hints(files), "what": e["c03"], "seed": ctx.seed, "kind": kind,
                        "failing_workspaces_in_this_run": len(bad_inputs)})
         found = True
+    # extraction cross-check: the same side conditions and answers evaluated by vm_compute inside Coq
+    xc = [(e["ws"], e["real"], e["model"]) for e in res
+          if e["model"] and e["model"].get("run") == "ok" and not e["diffs"] and 10 <= len(e["real"]["oplog"] or []) <= 150][:6]
+    ok_xc, msg_xc = L.coq_crosscheck(xc, "C03")
+    if not ok_xc:
+        ties.append((res[0], "extraction cross-check: Coq's vm_compute disagrees with the extracted model: " + msg_xc[-300:]))
     if ties and not found:
         e, why = min(ties, key=lambda t: len(json.dumps(t[0]["ws"]["files"])))
         fails.append({"kind": "correspondence", "file": why})
@@ -198,6 +204,7 @@ def run(ctx):
         "model_recursion_evaluations": n_rec,
         "traces_validated_against_impl": sum(1 for e in res + cres if e["model"] is not None and not e["diffs"] and "model_crash" not in e["model"]),
         "correspondence_disagreements": len(ties),
+        "extraction_crosschecked_in_coq": len(xc),
         "failing_workspaces": len(bad_inputs),
         "hypotheses_checked_on_real_logs": ["ops_ids_wf"],
         "stack_limit": "2 MiB analysis thread", "time_limit_s": 20,
